@@ -587,8 +587,11 @@ def c05_streams(tier, rng):
 
 PROPS["C05"] = PropSpec(c05_streams,
                         _RULE % "patterns: substrings of length 1..3 of members, whole members, straddling two members, absent bytes",
-                        ["FM-index backward search and XBW navigation are not modelled (D3): correspondence with the specification only"],
-                        "glue (duplicate-skipping iterator, position→ID map) is modelled; the index algorithms are compared with Spec.substrIds", _ASSUME)
+                        ["suffix sorting (FMIndex/SuffixArray.cpp) and the wavelet tree under the BWT are not modelled: the theorems hold for every suffix array of the text, and the BWT / occ / alphabet / samples "
+                         "exported by the real index are compared with the model's build on every run (fm-layer)",
+                         "XBW navigation is not modelled: correspondence with the specification only"],
+                        "FMINDEX locateSubstr is proved equal to Spec.substrIds (backward search = block of rows, LF walk of every row to its member, sort + duplicate-skipping iterator); "
+                        "the models of locate_id / locateP / locate / extract_id are run on the exported index of every fm-layer case", _ASSUME)
 PROPS["C06"] = PropSpec(c06_streams,
                         _RULE % "every query of C01–C05/C13/C15 on objects reloaded through the kind's own loader and through the generic loader, with a trailer after the image (tellg must stop at the image end)",
                         _PART, "field-sequence theorems over generated fragments + byte-level serialisers of the exact models", _ASSUME)
